@@ -640,6 +640,30 @@ func c10Run(ctx *Ctx, c c10Case) {
 		}
 		noNil("take", t)
 		noNil("skip", s)
+		// windows: skip(a).take(b) and take(a+b).skip(a) with the bounds written as literals, b up to
+		// the largest Integer ("no limit"): positional subsetting composes like slicing
+		if k >= 0 {
+			check := func(src string, want []any, law string) bool {
+				out := e.eval(src)
+				if out.failed() || !sameList(out.Coll, want) {
+					e.fail(law, src, out, renderItems(want))
+					return false
+				}
+				return true
+			}
+			for _, b := range []int{1, n, 2147483647, 2147483646 - k%3} {
+				hi := cut + b
+				if hi > n || hi < 0 {
+					hi = n
+				}
+				if !check(fmt.Sprintf("%s.skip(%d).take(%d)", c.Base, k, b), e.items[cut:hi], "skip(a).take(b) is not the window [a, a+b)") {
+					return
+				}
+			}
+			if !check(fmt.Sprintf("%s.take(%d).skip(%d)", c.Base, 2147483647, k), e.items[cut:], "take(max).skip(a) is not the tail from a") {
+				return
+			}
+		}
 		nontrivial = n >= 2 && k > 0 && k < n
 	case "distinct":
 		if ambiguousEq {
